@@ -57,3 +57,125 @@ func runPQ(rep *Report) {
 		}
 	}
 }
+
+func init() { checks["pqcrash"] = runPQCrash }
+
+func runPQCrash(rep *Report) {
+	tot := pqrun.CrashStats{}
+	for i := 0; i < *fN; i++ {
+		if !startProgram(i) {
+			continue
+		}
+		ps := progSeed(*fSeed, i)
+		r := &engine.RNG{S: ps}
+		cfg := pqrun.RandomConfig(r)
+		p := pqrun.Params{Steps: 40, Reopen: 30, BigEvent: 15, Lag: 10 + r.Intn(30)}
+		if *fTier == "thorough" {
+			p.Steps = 100
+		}
+		s := pqrun.Run(r, cfg, p)
+		if s.Q != nil {
+			s.Close()
+		}
+		bits, maxImg := 6, 3000
+		if *fTier == "thorough" {
+			bits, maxImg = 9, 30000
+		}
+		fails, st := pqrun.CrashCheck(s, r, bits, maxImg)
+		s.Failures = append(s.Failures, fails...)
+		tot.Boundaries += st.Boundaries
+		tot.Images += st.Images
+		tot.Distinct += st.Distinct
+		tot.InProgress += st.InProgress
+		if st.MaxPending > tot.MaxPending {
+			tot.MaxPending = st.MaxPending
+		}
+		rep.Programs++
+		rep.Steps += s.Step
+		rep.addCounts(s.Markers, s.OpCount, s.ErrCount)
+		for k, f := range s.Failures {
+			if k >= 3 {
+				break
+			}
+			fr := FailureRec{Prop: f.Prop, Kind: f.Kind, Msg: f.Msg, Seed: *fSeed, Program: i, Step: f.Step}
+			if k == 0 && len(rep.Failures) < 3 {
+				fr.Trace = s.Trace.String()
+			}
+			rep.Failures = append(rep.Failures, fr)
+		}
+		if len(rep.Samples) < 1 {
+			t := s.Trace.String()
+			if len(t) > 800 {
+				t = t[:800] + "..."
+			}
+			rep.Samples = append(rep.Samples, t)
+		}
+	}
+	rep.Extra["pqcrash"] = tot
+	rep.Distinct = tot.Distinct
+}
+
+func init() { checks["pqconc"] = runPQConc }
+
+func runPQConc(rep *Report) {
+	tw, done := traceWriter()
+	defer done()
+	for i := 0; i < *fN; i++ {
+		if !startProgram(i) {
+			continue
+		}
+		ps := progSeed(*fSeed, i)
+		r := &engine.RNG{S: ps}
+		cfg := pqrun.RandomConfig(r)
+		n := 10 + r.Intn(30)
+		if *fTier == "thorough" {
+			n = 40 + r.Intn(100)
+		}
+		s, sys, res := pqrun.RunConcurrent(r, cfg, n)
+		stuck := false
+		for _, f := range s.Failures {
+			if f.Kind == "stuck" || f.Kind == "deadlock" {
+				stuck = true
+			}
+		}
+		if s.Q != nil && !stuck {
+			s.Close()
+		}
+		rep.Programs++
+		rep.Steps += s.Step
+		rep.addCounts(s.Markers, s.OpCount, s.ErrCount)
+		if sys != nil {
+			for k, v := range sys.Markers {
+				rep.Markers[k] += v
+			}
+			if tw != nil {
+				fmt.Fprintf(tw, "program %d seed=%d\n%send\n", i, ps, sys.TraceLines())
+			}
+		}
+		if res.Events > 20 {
+			rep.Distinct++
+		}
+		rep.Markers["events-produced"] += res.Produced
+		rep.Markers["events-delivered"] += res.Delivered
+		for k, f := range s.Failures {
+			if k >= 3 {
+				break
+			}
+			fr := FailureRec{Prop: f.Prop, Kind: f.Kind, Msg: f.Msg, Seed: *fSeed, Program: i, Step: f.Step}
+			if k == 0 && len(rep.Failures) < 3 {
+				fr.Trace = s.Trace.String()
+			}
+			rep.Failures = append(rep.Failures, fr)
+		}
+		if len(rep.Samples) < 1 && sys != nil {
+			t := sys.TraceLines()
+			if len(t) > 800 {
+				t = t[:800] + "..."
+			}
+			rep.Samples = append(rep.Samples, t)
+		}
+		if stuck {
+			break
+		}
+	}
+}
